@@ -42,7 +42,7 @@ package freelist
 // ToGC (C03-D7, C13): an existing hand-over file is returned untouched (its entries are
 // reprocessed); otherwise the pool is flushed and the file renamed as a whole, and a fresh empty
 // file opened under the flush lock.
-//@ func (cp *FreeList) ToGC() (path string, err error)  property C03 C13
+//@ func (cp *FreeList) ToGC() (path string, err error)  property C03 C04 C13
 //@   preserves cp
 //@   local requires @pool-size len(cp.blockPool) < (1 << 40)
 //@   modifies cp.blockPool, cp.outstandingWork, cp.$pending, cp.file, cp.file.$open
@@ -57,6 +57,11 @@ package freelist
 //@   assert at before call freelist.FreeList.Flush#0: @C03-handover-only-committed-entries {C03} !cp.$pending
 //@   assert at before call os.Rename#0: @D7-whole-file $a0 == old(cp.file.$name) && $a1 == old(cp.file.$name) + ".gc" && !gexists
 //@   assert at before call os.Rename#0: @D7-flushed-first event("call:freelist.FreeList.Flush") == 1 && held(cp.flushLock)
+// C04: primary GC treats every record that is not marked deleted as live and relocates it out
+// of a low-use file, re-pointing the index at the copy. A location freed before the cycle must
+// therefore be in the file handed over to this cycle - the pool is flushed, successfully, before
+// the rename - or a superseded record is relocated and its old value resurrected.
+//@   assert at before call os.Rename#0: @C04-every-freed-location-handed-over {C04} event("call:freelist.FreeList.Flush") == 1 && !cp.$pending
 //@   internal ensures @D7-existing-untouched gexists ==> event("call:os.Rename") == 0 && event("call:freelist.FreeList.Flush") == 0 && cp.file == old(cp.file) && cp.blockPool == old(cp.blockPool)
 //@   ensures @path err == nil ==> path == old(cp.file.$name) + ".gc"
 //@   unguarded FreeList.file cp.file is only written by ToGC itself, and ToGC is run by one goroutine at a time (the primary GC goroutine, or the upgrade before GC is started)
